@@ -66,7 +66,7 @@ func (C11) Explore(x *kernel.Explorer, seed uint64) {
 	for i := 0; i < 4 && !x.Expired(); i++ {
 		plan := &kernel.Plan{Prop: "C11", Seed: kernel.Mix(seed, uint64(i)), Swarm: map[string]int64{
 			"chunk": int64(r.Intn(4)), "win": int64(r.Intn(12)), "side": int64(r.Intn(2)), "env": int64(r.Intn(2)),
-			"pattern": int64(r.Intn(4)), "params": int64(r.Intn(2)), "binary": int64(r.Intn(2))}}
+			"pattern": int64(r.Intn(4)), "params": int64(r.Intn(2)), "binary": int64(r.Intn(2)), "mysql": int64(r.Intn(3) / 2), "depeof": int64(r.Intn(2))}}
 		n := 1 + r.Intn(5)
 		for j := 0; j < n; j++ {
 			// value length relative to the window: shorter, equal, longer
@@ -88,7 +88,15 @@ func (C11) Run(t *testing.T, plan *kernel.Plan, keepLog bool) *kernel.Result {
 		pattern := c11Patterns[int(plan.Sw("pattern"))%len(c11Patterns)]
 		col := colKind{Name: "c1", Envelope: []string{"acrablock", "acrastruct"}[plan.Sw("env")%2], Mask: true, MaskLen: win, MaskSide: side}
 		yaml := strings.ReplaceAll(schemaYAML([]colKind{col}), fmt.Sprintf("masking: %q", maskPat), fmt.Sprintf("masking: %q", pattern))
-		pw, err := NewPgWorld(w, rng, PgWorldConfig{SchemaYAML: yaml, Clients: []string{owner, stranger}, ChunkMode: int(plan.Sw("chunk"))})
+		mysql := plan.Sw("mysql") == 1
+		dec := func(b []byte) []byte {
+			if mysql {
+				return b // binary columns arrive as they are
+			}
+			return decodeClientCell(17, 0, b)
+		}
+		pw, err := NewPgWorld(w, rng, PgWorldConfig{SchemaYAML: yaml, Clients: []string{owner, stranger}, ChunkMode: int(plan.Sw("chunk")),
+			MySQL: mysql, MyDeprecateEOF: plan.Sw("depeof") == 1})
 		if err != nil {
 			w.Violate("C11", "world-builds", "pg", err.Error())
 			return
@@ -112,6 +120,10 @@ func (C11) Run(t *testing.T, plan *kernel.Plan, keepLog bool) *kernel.Result {
 				v = "%%%" + v // value starting with an envelope tag
 			}
 			values = append(values, v)
+			if mysql {
+				script = append(script, myInsertStmt(names, i+1, "p", []string{v}, []colKind{col}, plan.Sw("params") == 1, i%2))
+				continue
+			}
 			script = append(script, insertStmt(names, i+1, []string{v}, []colKind{col}, plan.Sw("params") == 1))
 		}
 		for i := range values {
@@ -125,6 +137,9 @@ func (C11) Run(t *testing.T, plan *kernel.Plan, keepLog bool) *kernel.Result {
 			w.Violate("C14", "no-panic", "pg/proxy", p)
 		}
 		site := fmt.Sprintf("pg/%s/%s", col.Envelope, side)
+		if mysql {
+			site = "mysql" + site[2:]
+		}
 		if run.Stuck || run.ClientErr != "" {
 			w.Violate("C11", "session-completes", site, fmt.Sprintf("%q %v", run.ClientErr, run.ProxyErrs))
 			return
@@ -136,7 +151,7 @@ func (C11) Run(t *testing.T, plan *kernel.Plan, keepLog bool) *kernel.Result {
 				w.Violate("C11", "owner-gets-original", site, fmt.Sprintf("value %q: err=%q rows=%d", v, res.Err, len(res.Rows)))
 				continue
 			}
-			got := decodeClientCell(17, 0, res.Rows[0][2])
+			got := dec(res.Rows[0][2])
 			if string(got) != v {
 				w.Violate("C11", "owner-gets-original", site, fmt.Sprintf("window %d %s pattern %q: wrote %q, owner reads %q", win, side, pattern, v, got))
 			}
@@ -181,7 +196,7 @@ func (C11) Run(t *testing.T, plan *kernel.Plan, keepLog bool) *kernel.Result {
 				}
 				got := res.Rows[0][2]
 				if plan.Sw("binary") != 1 {
-					got = decodeClientCell(17, 0, got)
+					got = dec(got)
 				}
 				var want string
 				switch {
@@ -239,7 +254,7 @@ func (C19) Explore(x *kernel.Explorer, seed uint64) {
 	for i := 0; i < 4 && !x.Expired(); i++ {
 		plan := &kernel.Plan{Prop: "C19", Seed: kernel.Mix(seed, uint64(i)), Swarm: map[string]int64{
 			"chunk": int64(r.Intn(4)), "type": int64(r.Intn(4)), "policy": int64(r.Intn(4)), "env": int64(r.Intn(2)),
-			"binary": int64(r.Intn(2)), "params": int64(r.Intn(2)), "describe": int64(r.Intn(2)), "extra": int64(r.Intn(2))}}
+			"binary": int64(r.Intn(2)), "params": int64(r.Intn(2)), "describe": int64(r.Intn(2)), "extra": int64(r.Intn(2)), "mysql": int64(r.Intn(3) / 2), "depeof": int64(r.Intn(2))}}
 		n := 1 + r.Intn(4)
 		for j := 0; j < n; j++ {
 			plan.Ops = append(plan.Ops, kernel.Op{ID: j + 1, Kind: "row", A: []int64{int64(r.Intn(8))}})
@@ -316,7 +331,15 @@ func (C19) Run(t *testing.T, plan *kernel.Plan, keepLog bool) *kernel.Result {
 			// a second typed column (bytes) selected after the first one
 			cols19 = append(cols19, colKind{Name: "c2", Envelope: col.Envelope, DataType: "bytes"})
 		}
-		pw, names, err := colWorld(w, plan, rng, cols19)
+		mysql := plan.Sw("mysql") == 1
+		var pw *PgWorld
+		var names []string
+		var err error
+		if mysql {
+			pw, names, err = myColWorld(w, plan, rng, cols19)
+		} else {
+			pw, names, err = colWorld(w, plan, rng, cols19)
+		}
 		if err != nil {
 			w.Violate("C19", "world-builds", "pg", err.Error())
 			return
@@ -330,10 +353,20 @@ func (C19) Run(t *testing.T, plan *kernel.Plan, keepLog bool) *kernel.Result {
 				v = strings.ReplaceAll(v, "\x00", "0") // a literal cannot carry NUL
 			}
 			values = append(values, v)
+			if mysql {
+				script = append(script, myInsertStmt(names, i+1, "p", []string{v, "extra-bytes"}[:len(cols19)], cols19, plan.Sw("params") == 1, 0))
+				continue
+			}
 			script = append(script, insertStmt(names, i+1, []string{v, "extra-bytes"}[:len(cols19)], cols19, plan.Sw("params") == 1))
 		}
 		read := func(i int) Stmt {
 			st := Stmt{SQL: fmt.Sprintf("SELECT %s FROM t1 WHERE id = %d", strings.Join(names, ", "), i+1)}
+			if mysql {
+				if binaryRes { // prepared statement: rows in the binary protocol
+					st = Stmt{SQL: fmt.Sprintf("SELECT %s FROM t1 WHERE id = ?", strings.Join(names, ", ")), Extended: true, Args: []interface{}{int64(i + 1)}}
+				}
+				return st
+			}
 			if binaryRes {
 				st.Extended, st.ResultFormats, st.Describe = true, []int16{0, 0, 1, 1}[:len(names)], true
 			} else if plan.Sw("describe") == 1 {
@@ -345,6 +378,9 @@ func (C19) Run(t *testing.T, plan *kernel.Plan, keepLog bool) *kernel.Result {
 			script = append(script, read(i))
 		}
 		site := fmt.Sprintf("pg/%s/%s/%s", col.Envelope, typ, map[bool]string{true: "binary", false: "text"}[binaryRes])
+		if mysql {
+			site = "mysql" + site[2:]
+		}
 		run := pw.RunSession(owner, script)
 		if w.Res.Cut {
 			return
@@ -360,13 +396,23 @@ func (C19) Run(t *testing.T, plan *kernel.Plan, keepLog bool) *kernel.Result {
 		if binaryRes {
 			format = 1
 		}
+		c19Decode := c19Decode
+		if mysql {
+			// the MySQL driver hands every cell over as text or raw bytes, whatever the row protocol
+			format = 1
+			c19Decode = func(typ string, format int16, cell []byte) (string, error) { return string(cell), nil }
+		}
 		for i, v := range values {
 			res := run.Results[len(values)+i]
 			if res.Err != "" || len(res.Rows) != 1 {
 				w.Violate("C19", "owner-gets-declared-type", site, fmt.Sprintf("value %q: err=%q rows=%d", v, res.Err, len(res.Rows)))
 				continue
 			}
-			if len(res.Fields) >= 3 && res.Fields[2].DataTypeOID != c19OID[typ] {
+			if mysql {
+				if want := map[string]string{"int32": "INT", "int64": "BIGINT"}[typ]; want != "" && len(res.MyTypes) >= 3 && res.MyTypes[2] != want {
+					w.Violate("C19", "column-described-as-declared-type", site, fmt.Sprintf("declared %s but described as %s", typ, res.MyTypes[2]))
+				}
+			} else if len(res.Fields) >= 3 && res.Fields[2].DataTypeOID != c19OID[typ] {
 				w.Violate("C19", "column-described-as-declared-type", site, fmt.Sprintf("declared %s (oid %d) but described with oid %d", typ, c19OID[typ], res.Fields[2].DataTypeOID))
 			}
 			got, derr := c19Decode(typ, format, res.Rows[0][2])
@@ -403,7 +449,7 @@ func (C19) Run(t *testing.T, plan *kernel.Plan, keepLog bool) *kernel.Result {
 					if res.Err == "" && i == 0 {
 						w.Violate("C19", "policy-error-gives-error", psite, fmt.Sprintf("value %q: reader got a row %.40q instead of an error", v, cell))
 					} else if res.Err == "" {
-						w.Violate("C19", "session-usable-after-failure", "pg/error-policy:later-statement-not-processed", fmt.Sprintf("after an error-policy failure the next read of the typed column returned %.40q (described as oid %d) instead of an error", cell, fieldOID(res, 2)))
+						w.Violate("C19", "session-usable-after-failure", site[:strings.Index(site, "/")]+"/error-policy:later-statement-not-processed", fmt.Sprintf("after an error-policy failure the next read of the typed column returned %.40q (described as oid %d) instead of an error", cell, fieldOID(res, 2)))
 					}
 				case "default_value":
 					got, derr := c19Decode(typ, format, cell)
